@@ -755,6 +755,44 @@ def copy_of(d):
 
 
 # --------------------------------------------------------------------------
+# the SIZE of the process-wide diagram store: a history that leaves 10^4 .. 2^21 nodes behind
+# --------------------------------------------------------------------------
+def gen_sat_ext_probe(rng):
+    """a fresh manager posting one to three NON-CLAUSE inequalities (their diagrams go through the store); the
+    observation includes the projection of the CNF on the registered variables"""
+    nv = rng.choice([3, 4, 5, 6])
+    names = c07.NAMES[:nv]
+    posts = [{"k": "newvar", "v": v} for v in names]
+    for _ in range(rng.choice([1, 1, 2, 3])):
+        vs = rng.sample(names, rng.randrange(3, nv + 1))
+        cs = [rng.choice([1, 2, 2, 3, 4, 5]) for _ in vs]
+        if sum(cs) <= max(cs) + 1:
+            cs = [2] * len(vs)
+        posts.append({"k": "ineq", "lt": [[v, rng.random() < 0.75, c] for v, c in zip(vs, cs)], "rt": [],
+                      "b": rng.randint(max(cs) + 1, sum(cs) - 1), "op": "GE", "decomp": rng.random() < 0.3,
+                      "via": "ctor"})
+    if rng.random() < 0.4:
+        posts.append(c07.gen_post(rng, names))
+    return {"op": {"k": "sat", "posts": posts, "solve": rng.random() < 0.5, "ext": True}, "kind": "sat",
+            "stream": "logic", "variant": None, "dims": None, "note": "posts/ext", "cand": []}
+
+
+def gen_bigstore_group(rng, nodes):
+    """history: (now and then a few small encodings, then) `nodes` diagram nodes of unrelated inequalities; probes:
+    fresh managers posting non-clause inequalities, and two operations of other kinds"""
+    hist = []
+    for _ in range(rng.choice([0, 0, 1, 2])):
+        hist.append(strip(gen_sat(rng)[0]))
+    hist.append(strip({"op": {"k": "satgrow", "nodes": int(nodes), "pyseed": rng.randrange(1 << 30), "tag": "g"},
+                       "kind": "satgrow", "stream": "logic", "dims": None, "cand": [], "note": f"bigstore:{nodes}"}))
+    probes = [gen_sat_ext_probe(rng) for _ in range(3)]
+    probes.append(gen_sat(rng)[0])
+    for k in ("strop", "defaults"):
+        probes.append(gen_probe(rng, kind=k)[0])
+    return [{"history": copy_of(hist), "probe": strip(p)} for p in probes]
+
+
+# --------------------------------------------------------------------------
 # executing cases (batched)
 # --------------------------------------------------------------------------
 _CACHE = {}
@@ -838,7 +876,10 @@ def run_batch(cases, par=8):
              "probes": [wj(c["probe"]["op"]) for c in groups[hk]["cases"]]} for hk in order]
     alone_jobs = [{"id": f"alone{i}", "history": [], "probes": [wj(p) for p in probes[i:i + 40]]}
                   for i in range(0, len(probes), 40)]
-    alljobs = alone_jobs + jobs
+    # histories that grow the diagram store take 20-40 s: each leads a batch of its own worker
+    heavy = [j for j in jobs if any(h.get("k") == "satgrow" and h.get("nodes", 0) > 200000 for h in j["history"])]
+    jobs = heavy + [j for j in jobs if j not in heavy]
+    alljobs = (jobs[:len(heavy)] + alone_jobs + jobs[len(heavy):]) if heavy else alone_jobs + jobs
     nb = max(1, min(par, len(alljobs)))
     batches = [alljobs[i::nb] for i in range(nb)]
     outs = call_workers_parallel(batches, fork=True, par=par)
@@ -982,6 +1023,15 @@ def sat_check(case, raw):
         return "false"
     obs = {"norms": raw["norms"], "newmem": raw["newmem"], "clauses": raw["clauses"], "aux": raw["aux"],
            "codified": raw["codified"], "vtable": raw["vtable"], "status": raw["status"], "mem0": raw["mem0"]}
+    if "ext" in raw:
+        obs["extendable"], obs["users"] = raw["ext"], raw["users"]
+    if raw.get("big"):
+        # a store of 10^4 .. 10^6 nodes is not handed to vm_compute: the model is run from the EMPTY store and only the
+        # semantic part of c07_check is used - the posts accepted / refused and the set of user assignments that extend
+        # (which by C07_post_exact does not depend on the store the posts started from)
+        if "ext" not in raw:
+            return "true"
+        obs.update(newmem=[], clauses=[], aux=0, codified=[], vtable=[], mem0=[])
     return c07.to_coq({"posts": posts}, obs)
 
 
@@ -1267,6 +1317,15 @@ def run(ctx, out, replay=None):
     ncorpus = len(cases)
     for _ in range(ngroups):
         cases += gen_group(ctx.rng, ctx.rng.choice([3, 4, 5]))
+    # the size of the process-wide diagram store (a generator of its own: the groups above do not depend on it)
+    import random
+    brng = random.Random(ctx.rng.randrange(1 << 30))
+    nbig = 0
+    for nodes in ([30000, (1 << 20) + 4096] if quick else
+                  [1500, 5000, 30000, 70000, 140000, 10 ** 6 + 4096, (1 << 20) + 4096, (1 << 21) + 4096]):
+        g = gen_bigstore_group(brng, nodes)
+        nbig += len(g)
+        cases += g
     nrel = 0
     kinds = [REL_KINDS[i % len(REL_KINDS)] for i in range(nrelated)]
     # process-wide state the checked tree has and the pinned tree had not (static audit; informative): more
@@ -1316,6 +1375,9 @@ def run(ctx, out, replay=None):
         1 for (c, _), v in zip(rob, vals)
         if v is False and _CACHE[case_key(c)]["alone"]["digest"] != _CACHE[case_key(c)]["after"]["digest"])
     stats["related_pairs"] = nrel
+    stats["bigstore_pairs"] = nbig
+    stats["max_store_before_probe"] = max([m for c in cases for m in (_CACHE.get(case_key(c), {}).get("trace_mem") or [])
+                                           if m is not None] or [0])
     out.extra["c20_stats"] = stats
     _t("robust count")
     okc = lambda cs: [c for c in cs if "crash" not in _CACHE.get(case_key(c), {})]
